@@ -85,3 +85,46 @@ def arg(call, i):
 
 def describe(node):
     return "%s:%d `%s`" % (node.fn.relfile, node.get("line", 0), node.src)
+
+
+class RuleProxy:
+    """records another property's rule instances under this property's rule ids (shared necessary conditions)"""
+
+    def __init__(self, ck, mapping, default=None):
+        self.ck, self.mapping, self.default = ck, mapping, default
+
+    def __getattr__(self, k):
+        return getattr(self.ck, k)
+
+    def _r(self, rule):
+        return self.mapping.get(rule, self.default)
+
+    def holds(self, rule, *a, **kw):
+        r = self._r(rule)
+        if r:
+            self.ck.holds(r, *a, **kw)
+
+    def violated(self, rule, *a, **kw):
+        r = self._r(rule)
+        if r:
+            self.ck.violated(r, *a, **kw)
+
+    def undecided(self, rule, *a, **kw):
+        r = self._r(rule)
+        if r:
+            self.ck.undecided(r, *a, **kw)
+
+    def advisory(self, rule, *a, **kw):
+        r = self._r(rule)
+        if r:
+            self.ck.advisory(r, *a, **kw)
+
+    def anchor_lost(self, rule, *a, **kw):
+        r = self._r(rule)
+        if r:
+            self.ck.anchor_lost(r, *a, **kw)
+
+    def floor(self, rule, n):
+        r = self._r(rule)
+        if r:
+            self.ck.floor(r, n)
